@@ -234,7 +234,7 @@ package gateway
 // C24: the will part of the MQTT CONNECT under construction follows the exchange: nothing before a WILLTOPIC
 // has been taken, a non-empty topic with QoS 0-2 (and the will flag still set) while the WILLMSG is awaited.
 //@ spec willClean(c *mqPkts.ConnectPacket) bool = len(c.WillTopic) == 0 && c.WillQos == 0 && !c.WillRetain
-//@ pred willPhase(t *connectTransaction) = (t.state <= 1 ==> willClean(t.mqConnect)) &&
+//@ pred willPhase(t *connectTransaction) = (t.state <= 1 ==> willClean(t.mqConnect)) && (t.state == 1 ==> t.mqConnect.WillFlag) &&
 //@      (t.state == 2 ==> t.mqConnect.WillFlag && len(t.mqConnect.WillTopic) > 0 && t.mqConnect.WillQos <= 2)
 
 //@ func newConnectTransaction
@@ -273,7 +273,7 @@ package gateway
 //@   requires [C24] no_will_yet: willClean(t.mqConnect)
 //@   let h = t.handler
 //@   assigns t.state, h.mqttOutN, h.mqttOut, h.snOutN, h.snOut, h.pktBuffer
-//@   ensures [C09] keeps: ctInv(t)
+//@   ensures [C09,C24] keeps: ctInv(t)
 //@   ensures [C08] waits_for_auth: t.authEnabled ==> t.state == 0 && h.mqttOutN == old(h.mqttOutN) && h.snOutN == old(h.snOutN) && result == nil
 //@   ensures [C09] will_asks_topic: !t.authEnabled && t.mqConnect.WillFlag ==> t.state == 1 && h.mqttOutN == old(h.mqttOutN)
 //@   ensures [C09] no_will_connects: !t.authEnabled && !t.mqConnect.WillFlag ==> t.state == 3 && h.snOutN == old(h.snOutN) &&
@@ -306,7 +306,7 @@ package gateway
 //@      closed(t.TimedTransaction.TransactionBase.done), calls(t.TimedTransaction.TransactionBase.finally)
 //@   at DecodePlain.0 after let user = retn(0)
 //@   at DecodePlain.0 after let pass = retn(1)
-//@   ensures [C08] keeps: ctInv(t)
+//@   ensures [C08,C24] keeps: ctInv(t)
 //@   ensures [C08] ignored_unless_awaited: old(t.state) != 0 ==> result == nil && h.mqttOutN == old(h.mqttOutN) && h.snOutN == old(h.snOutN) &&
 //@      t.state == old(t.state) && t.mqConnect.Username == old(t.mqConnect.Username) && sameSlice(t.mqConnect.Password, old(t.mqConnect.Password)) &&
 //@      t.mqConnect.UsernameFlag == old(t.mqConnect.UsernameFlag) && t.mqConnect.PasswordFlag == old(t.mqConnect.PasswordFlag)
@@ -326,13 +326,18 @@ package gateway
 //@   requires [C09] inv: ctInv(t) && snWillTopic != nil
 //@   let h = t.handler
 //@   assigns t.state, t.mqConnect.WillFlag, t.mqConnect.WillQos, t.mqConnect.WillRetain, t.mqConnect.WillTopic,
-//@      h.mqttOutN, h.mqttOut, h.snOutN, h.snOut, h.pktBuffer
+//@      h.mqttOutN, h.mqttOut, h.snOutN, h.snOut, h.pktBuffer, armed(t.TimedTransaction.timer), t.TimedTransaction.TransactionBase.err,
+//@      closed(t.TimedTransaction.TransactionBase.done), calls(t.TimedTransaction.TransactionBase.finally)
 //@   at mqttSend.0 before assert [C08] auth_first: t.authEnabled ==> t.authenticated
 //@   at mqttSend.0 before assert [C08] configured_credentials: !t.authEnabled ==> credsFromCfg(t)
-//@   ensures [C09] keeps: ctInv(t)
+//@   ensures [C09,C24] keeps: ctInv(t)
 //@   ensures [C08,C09] ignored_unless_awaited: old(t.state) != 1 ==> result == nil && h.mqttOutN == old(h.mqttOutN) && h.snOutN == old(h.snOutN) &&
 //@      t.state == old(t.state) && t.mqConnect.WillTopic == old(t.mqConnect.WillTopic) && t.mqConnect.WillFlag == old(t.mqConnect.WillFlag)
-//@   ensures [C09] takes_will_topic: old(t.state) == 1 && len(snWillTopic.WillTopic) != 0 ==> t.state == 2 && h.mqttOutN == old(h.mqttOutN) &&
+// C24: a will QoS of 3 cannot be expressed in MQTT: the exchange is refused (not-supported CONNACK), nothing goes to the broker.
+//@   ensures [C24,C09] will_qos3_refused: old(t.state) == 1 && len(snWillTopic.WillTopic) != 0 && snWillTopic.QOS > 2 ==> result != nil &&
+//@      h.mqttOutN == old(h.mqttOutN) && t.state == 1 && finished(t.TimedTransaction.TransactionBase) &&
+//@      (h.snOutN == old(h.snOutN) + 1 ==> istype(h.snOut[old(h.snOutN)], *snPkts1.Connack) && h.snOut[old(h.snOutN)].(*snPkts1.Connack).ReturnCode == 3)
+//@   ensures [C09] takes_will_topic: old(t.state) == 1 && len(snWillTopic.WillTopic) != 0 && snWillTopic.QOS <= 2 ==> t.state == 2 && h.mqttOutN == old(h.mqttOutN) &&
 //@      t.mqConnect.WillTopic == snWillTopic.WillTopic && t.mqConnect.WillQos == snWillTopic.QOS && t.mqConnect.WillRetain == snWillTopic.Retain &&
 //@      (old(state(h)) != 2 && result == nil ==> h.snOutN == old(h.snOutN) + 1 && istype(h.snOut[old(h.snOutN)], *snPkts1.WillMsgReq))
 //@   ensures [C09,C24] empty_topic_means_no_will: old(t.state) == 1 && len(snWillTopic.WillTopic) == 0 ==> t.state == 3 && !t.mqConnect.WillFlag &&
@@ -348,7 +353,7 @@ package gateway
 //@   assigns t.state, t.mqConnect.WillMessage, h.mqttOutN, h.mqttOut
 //@   at mqttSend.0 before assert [C08] auth_first: t.authEnabled ==> t.authenticated
 //@   at mqttSend.0 before assert [C08] configured_credentials: !t.authEnabled ==> credsFromCfg(t)
-//@   ensures [C09] keeps: ctInv(t)
+//@   ensures [C09,C24] keeps: ctInv(t)
 //@   ensures [C08,C09] ignored_unless_awaited: old(t.state) != 2 ==> result == nil && h.mqttOutN == old(h.mqttOutN) && t.state == old(t.state) &&
 //@      sameSlice(t.mqConnect.WillMessage, old(t.mqConnect.WillMessage))
 //@   ensures [C09] connects_with_will: old(t.state) == 2 ==> t.state == 3 && sameSlice(t.mqConnect.WillMessage, snWillMsg.WillMsg) &&
@@ -586,7 +591,7 @@ package gateway
 // ---- sleep pinger (its timing is not decided by contracts; see C12 / C33 not applicable) ----
 //@ func (*handler1).startSleepPinger
 //@   nopanic [C25]
-//@   requires [C25] group: h.group != nil
+//@   requires [C25] group: h.group != nil && h.mqttConn != nil
 //@   ensures [C25] cancel: result != nil
 // The pinger goroutine's body: every keep-alive period one PINGREQ to the broker, nothing else (C14, C24).
 //@ func (*handler1).startSleepPinger$1
